@@ -82,7 +82,7 @@ def Ranked (fs : FS) (rank : Str → Nat) : Prop :=
 def HdrRanked (rank : Str → Nat) (h : Hdr) : Prop :=
   ∀ d ∈ h.deps, ∀ dn dv, splitDep d = some (dn, dv) → rank dn < rank h.ns
 
-/-- the calls excluded from `C17_inv_partial`: in-memory typelibs that close a dependency cycle -/
+/-- the calls excluded from `C17_inv`: in-memory typelibs that close a dependency cycle -/
 def OpOk (rank : Str → Nat) (_s : Repo) : Op → Prop
   | .load hdr _ => HdrRanked rank hdr
   | _ => True
